@@ -57,7 +57,7 @@ def run(tier, seed):
         kept, rej = zic_filter([(m[0], m[3]) for m in fam], 'S3')
         ks = {k for k, _ in kept}
         sources.append(('S3-mutants', '\n'.join(t for _, t in kept) + '\n', [m[4] for m in fam if m[0] in ks], 2000, 2050))
-    hashseeds = [0, 1, seed + 2]
+    hashseeds = [0, 1, 2, 3, seed + 4]
     tmp = tempfile.mkdtemp(prefix='verif-c20-')
     try:
         for tag, text, names, y0, y1 in sources:
@@ -198,7 +198,7 @@ def run(tier, seed):
     except Exception as e:
         rep.violation('c20:zonedbpy:does-not-load', {'error': '%s: %s' % (type(e).__name__, str(e)[:300])})
     rep.coverage.update(cov)
-    rep.assumptions += ['the real tools/tzcompiler.py is run in separate processes with PYTHONHASHSEED in {0, 1, VERIF_SEED+2}; outputs compared byte for byte after sorting the comma-separated reasons inside comment parentheses/braces',
+    rep.assumptions += ['the real tools/tzcompiler.py is run in separate processes with PYTHONHASHSEED in {0, 1, 2, 3, VERIF_SEED+4}; outputs compared byte for byte after sorting the comma-separated reasons inside comment parentheses/braces',
                         'sources: 2025b (normalised), zonedbx reconstructed' + (', half of the 1-deviation mutant family' if thorough else ''),
                         'C++ entry counts are parsed from the generated text; the compiled registry size is checked in C11/C12/C03']
     return rep.finish(exhaustive=False, extra={'evaluations': cov['files_compared'] + cov['count_statements_checked'] + cov['python_maps_compared'] + cov['zones_basic_vs_extended'] + cov['zonedbpy_zone_years'],
